@@ -61,7 +61,7 @@ func (e *lkEp) close() {
 	hs := append([]*lkHolder{}, e.holders...)
 	e.mu.Unlock()
 	for _, h := range hs {
-		h.cancel()
+		go h.cancel()
 	}
 	settle()
 }
@@ -210,11 +210,19 @@ func (e *lkEp) op(c *Ctx, line string) {
 		var ctx context.Context
 		var cancel context.CancelFunc
 		var err error
-		if w[0] == "try" {
-			ctx, cancel, err = l.TryWithContext(bg, "L")
-		} else {
+		force := w[0] == "force"
+		if force {
 			e.dirty = true
-			ctx, cancel, err = l.ForceWithContext(bg, "L")
+		}
+		if !watchdog(func() {
+			if force {
+				ctx, cancel, err = l.ForceWithContext(bg, "L")
+			} else {
+				ctx, cancel, err = l.TryWithContext(bg, "L")
+			}
+		}) {
+			c.Emit(line, "hang", true)
+			return
 		}
 		if err == nil {
 			e.got(ctx, cancel)
@@ -256,7 +264,10 @@ func (e *lkEp) op(c *Ctx, line string) {
 			c.Emit(line, "no-holder", false)
 			return
 		}
-		h.cancel()
+		if !watchdog(h.cancel) {
+			c.Emit(line, "hang", true)
+			return
+		}
 		c.Hit("release")
 		emit()
 	case "extdel", "expire":
@@ -285,6 +296,18 @@ func (e *lkEp) op(c *Ctx, line string) {
 		emit()
 	default:
 		c.Emit(line, "bad-op", false)
+	}
+}
+
+// watchdog runs a call of the real code that must return without outside help
+func watchdog(f func()) bool {
+	done := make(chan struct{})
+	go func() { f(); close(done) }()
+	select {
+	case <-done:
+		return true
+	case <-time.After(15 * time.Second):
+		return false
 	}
 }
 
